@@ -869,11 +869,22 @@ def stream_pipeline(ctx, reqs, pending):
                          pipeline=kinds, placement=places or '-', outcome=res[0] if res[0] == 'ok' else res[1],
                          dtype=opts.get('dtype', 'float64'), via_file=via_file,
                          flags=f"{flags['rw']},{flags['mod']},{flags['voi']},{flags['pal']},{flags['icc']},{flags['pres']}")
-            # batch access = per-frame access
-            res = call(im.get_frames, **kw)
-            singles = [call(im.get_frame, f + 1, **kw) for f in range(n)]
+            # batch access = per-frame access (all frames in order, or a selection with repeats in any order, by number or index)
+            sel = list(range(n))
+            how = 'all'
+            if rep > 0:
+                sel = [r.randrange(n) for _ in range(r.randint(1, n + 1))]
+                how = r.choice(['numbers', 'indices'])
+            if how == 'all':
+                res = call(im.get_frames, **kw)
+            elif how == 'numbers':
+                res = call(im.get_frames, [f + 1 for f in sel], **kw)
+            else:
+                res = call(im.get_frames, np.array(sel) if opts.get('spell') == 2 else sel, as_indices=True, **kw)
+            ctx.hist('batch_selection', how)
+            singles = [call(im.get_frame, f + 1, **kw) for f in sel]
             ctx.case(pipeline='batch')
-            case = {'stream': 'pipe', 'idx': idx, 'rep': rep, 'frame': 'all', 'flags': flags, 'opts': opts, 'P': P}
+            case = {'stream': 'pipe', 'idx': idx, 'rep': rep, 'frame': 'all', 'flags': flags, 'opts': opts, 'P': P, 'selection': sel, 'how': how}
             if all(s[0] == 'ok' for s in singles):
                 if res[0] != 'ok':
                     ctx.fail(case, {'why': 'get_frames refused where every get_frame succeeds', 'error': res[2]}, site='get_frames')
@@ -928,6 +939,7 @@ def run(ctx):
     stream_objects(ctx, reqs, pending)
     stream_paths(ctx, reqs, pending)
     stream_dtype(ctx, reqs, pending)
+    stream_spellings(ctx, reqs, pending)
     settle(ctx, reqs, pending)
 
 
@@ -947,12 +959,13 @@ def replay(ctx, case):
             res = call(im.get_frame, f + 1, **kw)
             check_call(sub, case, P, f, flags, opts, res, 'get_frame', hist=False)
     streams = {'lut': stream_lut, 'palette': stream_palette, 'selwin': stream_selectors, 'sellut': stream_selectors,
-               'selrw': stream_selectors, 'place': stream_placement, 'obj': stream_objects, 'paths': stream_paths, 'dtype': stream_dtype}
+               'selrw': stream_selectors, 'place': stream_placement, 'obj': stream_objects, 'paths': stream_paths, 'dtype': stream_dtype, 'spell': stream_spellings}
     fn = streams.get(case.get('stream'))
     if fn is not None:
         # these streams are cheap: re-run the stream and keep the failures of the same case
         fn(sub, [], [])
-        keys = [k for k in ('stream', 'idx', 'n', 'sel', 'kind', 'places', 'frame', 'slope', 'intercept', 'out', 'in') if k in case]
+        keys = [k for k in ('stream', 'idx', 'n', 'sel', 'kind', 'places', 'frame', 'slope', 'intercept', 'out', 'in', 'dtype', 'dtype_spelling',
+                            'range_spelling', 'frame_number') if k in case]
         sub.failures = [f for f in sub.failures if all(f['case'].get(k) == case.get(k) for k in keys)]
     return sub.failures[:3] or None
 
@@ -1571,7 +1584,7 @@ def stream_objects(ctx, reqs, pending):
     from gen.pixeltransforms import fl, lut_item
     for idx in range(ctx.n(600, 8000)):
         r = ctx.rng('obj', idx)
-        kind = r.choice(['voi-window', 'voi-window', 'voi-lut', 'mod-rescale', 'mod-lut', 'rwvm-linear', 'rwvm-lut'])
+        kind = r.choice(['voi-window', 'voi-window', 'voi-lut', 'voi-both', 'mod-rescale', 'mod-lut', 'rwvm-linear', 'rwvm-lut'])
         signed = r.random() < 0.3
         adt = r.choice(['int16', 'int32', 'int8']) if signed else r.choice(['uint16', 'uint8', 'uint16'])
         ii = np.iinfo(adt)
@@ -1607,12 +1620,27 @@ def stream_objects(ctx, reqs, pending):
                 sel = 0
                 P['T']['voi_luts'] = [lut]
                 tr = call(lambda: hd.VOILUTTransformation(voi_luts=[hd.VOILUT(lut['first'], np.asarray(lut['data'], dtype=np.uint8 if lut['bits'] == 8 else np.uint16))]))
+            prefer = None
+            if kind == 'voi-both' and tr[0] == 'ok':
+                # a transformation holding a window AND a table: prefer_lut decides (default: the window)
+                fn = r.choice([None, 'LINEAR', 'LINEAR_EXACT'])
+                cs, ws, _ = gen_window(r, Fraction(1), Fraction(0), 1, fn)
+                prefer = r.choice([None, False, True])
+                tr = call(lambda: hd.VOILUTTransformation(window_center=fl(cs[0]), window_width=fl(ws[0]), voi_lut_function=fn,
+                                                          voi_luts=[hd.VOILUT(lut['first'], np.asarray(lut['data'], dtype=np.uint8 if lut['bits'] == 8 else np.uint16))]))
+                if prefer is not True:
+                    P['T'] = {k: v for k, v in P['T'].items() if k != 'voi_luts'}
+                    P['T']['window'] = [{'place': 'image', 'vals': [{'c': cs, 'w': ws, 'fn': fn}]}]
             if tr[0] != 'ok':
                 ctx.note(f'object case {idx}: construction failed: {tr[2]}')
                 continue
             dtype = r.choice(['float64', 'float64', 'float32'])
             opts['dtype'] = dtype
-            res = call(tr[1].apply, arr, (fl(lo), fl(hi)), sel, np.dtype(dtype), inv)
+            if prefer is None:
+                res = call(tr[1].apply, arr, (fl(lo), fl(hi)), sel, np.dtype(dtype), inv)
+            else:
+                res = call(tr[1].apply, arr, output_range=(fl(lo), fl(hi)), voi_transform_selector=sel, dtype=np.dtype(dtype), invert=inv,
+                           prefer_lut=prefer)
             ref = check_call(ctx, case, P, 0, flags, opts, res, 'VOILUTTransformation.apply')
             # pydicom second opinion (windows, unsigned 16 bit, no inversion): same shape after normalising its output range
             if kind == 'voi-window' and res[0] == 'ok' and ref[0] == 'ok' and not inv and not signed and dtype == 'float64':
@@ -1922,3 +1950,43 @@ def attribute(failure, open_findings):
         if ref[0] == 'ok' and ref[2].get('unit_linear_window'):
             return 'C06-linear-width-one'
     return None
+
+
+# ---------------------------------------------------------------------------- option spellings (deterministic grid)
+def stream_spellings(ctx, reqs, pending):
+    """every accepted spelling of dtype / voi_output_range / frame number on every kind of pipeline"""
+    base = {'bits': 8, 'signed': False, 'bits_stored': 8, 'photometric': 'MONOCHROME2', 'frames': [[[0, 19, 20, 40]], [[5, 6, 7, 8]]]}
+    win = [{'place': 'image', 'vals': [{'c': ['45'], 'w': ['64'], 'fn': 'LINEAR_EXACT'}]}]
+    lut = [{'first': 3, 'bits': 8, 'data': [0, 16, 32, 64, 96, 128]}]
+    kinds = {
+        'rescale+window': {'rescale': [{'place': 'image', 'vals': [['2', '-4']]}], 'window': win},
+        'modlut+window': {'mod_lut': {'first': 19, 'bits': 8, 'data': [63, 27, 90]}, 'window': win},
+        'modlut+voilut': {'mod_lut': {'first': 19, 'bits': 8, 'data': [3, 5, 8]}, 'voi_luts': lut},
+        'rescale+voilut': {'rescale': [{'place': 'image', 'vals': [['2', '1']]}], 'voi_luts': lut},
+        'window+inverse': {'pres_shape': 'INVERSE', 'window': win},
+        'rwvm': {'rwvm': [{'place': 'image', 'vals': [[{'label': 'A', 'unit': UNITS[0], 'first': 0, 'last': 255, 'slope': '3/2', 'intercept': '-1'}]]}]},
+    }
+    from gen.pixeltransforms import fl
+    for kname, T in kinds.items():
+        P = dict(base, T=T)
+        st = call(build, P)
+        if st[0] != 'ok':
+            ctx.note('spelling image could not be built: ' + st[2])
+            continue
+        im = st[1][0]
+        flags = {'rw': None, 'mod': None, 'voi': None, 'pal': None, 'icc': None, 'pres': True}
+        for dname in ('float64', 'float32'):
+            for dsp, dval in (('dtype', np.dtype(dname)), ('type', np.dtype(dname).type), ('name', dname)):
+                for rsp in ('floats', 'numpy-scalars', 'list', 'ndarray', 'ints'):
+                    lo, hi = (Fraction(22), Fraction(26)) if rsp != 'ints' else (Fraction(0), Fraction(4))
+                    rng_ = {'floats': (fl(lo), fl(hi)), 'numpy-scalars': (np.float64(fl(lo)), np.float64(fl(hi))), 'list': [fl(lo), fl(hi)],
+                            'ndarray': np.array([fl(lo), fl(hi)]), 'ints': (int(lo), int(hi))}[rsp]
+                    for fnum in (1, np.int64(2)):
+                        opts = {'dtype': dname, 'voi_output_range': [fs(lo), fs(hi)]}
+                        kw = dict(flag_kwargs(flags), dtype=dval, voi_output_range=rng_)
+                        res = call(im.get_frame, fnum, **kw)
+                        case = {'stream': 'spell', 'kind': kname, 'dtype': dname, 'dtype_spelling': dsp, 'range_spelling': rsp,
+                                'frame_number': type(fnum).__name__}
+                        check_call(ctx, case, P, int(fnum) - 1, flags, opts, res, 'spelling/' + kname, hist=False)
+                        ctx.case(nontrivial_key=('spell', kname, dname, dsp, rsp, type(fnum).__name__), spelling=f'{dsp}/{rsp}')
+    ctx.exhaustive.append('option spellings: 6 pipeline kinds x 2 dtypes x 3 dtype spellings x 5 range spellings x int / numpy int frame number')
